@@ -66,10 +66,14 @@ static int ver_ref(const ver_t *a, const ver_t *b)
     if (!a->has_word && !b->has_word) return 0;
     if (!a->has_word || !b->has_word) {
         const ver_t *w = a->has_word ? a : b;
+        for (const char *q = w->word; *q; q++) if (isupper((unsigned char)*q)) return 99;
         int r = preword_rank(w->word), below = (r >= 1 && r <= 4);               /* snap/pre/alpha/beta rank below the bare version, anything else above */
         int res = below ? -1 : 1;                                                /* (suffixed) relative to bare */
         return a->has_word ? res : -res;
     }
+    /* (the statement names the pre-release words in lower case; how other spellings of them rank is not said) */
+    for (const char *q = a->word; *q; q++) if (isupper((unsigned char)*q)) return 99;
+    for (const char *q = b->word; *q; q++) if (isupper((unsigned char)*q)) return 99;
     ra = preword_rank(a->word); rb = preword_rank(b->word);
     if (ra && rb && ra != rb) return ra < rb ? -1 : 1;
     if (!strcasecmp(a->word, b->word)) {
